@@ -297,7 +297,7 @@ Definition wf_body (k : famkind) (b : nlri_body) : bool :=
   | BMpls x l => wf_prefix (fam_v6 k) x && wf_labels (chunks3 l) && Nat.leb (8 * length l + pf_len x) 255
   | BVpn x l rd => wf_prefix (fam_v6 k) x && wf_labels (chunks3 l) && Nat.eqb (length rd) 8 && wf_bytesb rd &&
                    Nat.leb (8 * (8 + length l) + pf_len x) 255
-  | BRouteTarget raw => wf_bytesb raw && Nat.leb (length raw) 31
+  | BRouteTarget raw => wf_bytesb raw && Nat.leb (length raw) 32
   | BFlow raw => wf_bytesb raw && Nat.leb (length raw) 4095 && (fam_v6 k || flow_components_ok raw)
   | BVpls rd ve off sz lb => Nat.eqb (length rd) 8 && wf_bytesb rd && (ve <? 65536) && (off <? 65536) && (sz <? 65536) &&
                              (lb <? 16777216)
